@@ -21,6 +21,8 @@ type Site struct {
 	GitDir  string // absolute
 	WorkDir string // absolute; "" for bare
 	Env     []string
+
+	laterRefs []Ref // layout "bitmap": references written after the repack
 }
 
 func (s *Site) Close() {
@@ -119,6 +121,20 @@ func Materialise(w *World) (*Site, error) {
 	for _, r := range w.Extras.Replace {
 		refs = append(refs, Ref{Name: "refs/replace/" + r[0], OID: r[1]})
 	}
+	if w.Layout == "bitmap" {
+		// every other reference is written only after the repack, so that
+		// the bitmapped pack holds part of the history and the rest stays loose
+		var first, later []Ref
+		for i, r := range refs {
+			if i%2 == 0 {
+				first = append(first, r)
+			} else {
+				later = append(later, r)
+			}
+		}
+		refs = first
+		s.laterRefs = later
+	}
 	if w.Layout == "packed-refs" || w.Layout == "packed" {
 		sort.Slice(refs, func(i, j int) bool { return refs[i].Name < refs[j].Name })
 		var b bytes.Buffer
@@ -197,6 +213,22 @@ func Materialise(w *World) (*Site, error) {
 	if w.Layout == "packed" {
 		if out, err := s.Git(nil, "repack", "-adq"); err != nil {
 			return fail(fmt.Errorf("repack: %v: %s", err, out))
+		}
+	}
+	if w.Layout == "bitmap" {
+		// a pack with a reachability bitmap for what the first references
+		// reach; everything else stays loose and gets its references now
+		if out, err := s.Git(nil, "-c", "pack.writeBitmapHashCache=true", "repack", "-adbq"); err != nil {
+			return fail(fmt.Errorf("repack -b: %v: %s", err, out))
+		}
+		for _, r := range s.laterRefs {
+			p := filepath.Join(s.GitDir, filepath.FromSlash(r.Name))
+			if err := os.MkdirAll(filepath.Dir(p), 0o755); err != nil {
+				return fail(err)
+			}
+			if err := os.WriteFile(p, []byte(r.OID+"\n"), 0o644); err != nil {
+				return fail(fmt.Errorf("writing ref %q: %w", r.Name, err))
+			}
 		}
 	}
 	return s, nil
